@@ -169,7 +169,8 @@ func checkC18(c c18Case, rec *Rec) *Violation {
 	fifth := wantIP.String() + " same-ip.example " + c.Names[0]
 	lineNames[fifth] = []string{"same-ip.example", c.Names[0]}
 	text += fifth + "\n"
-	st, err := filterlist.NewRuleStorage([]filterlist.RuleList{&filterlist.StringRuleList{ID: 3, RulesText: text}})
+	// the list id varies with the line; 0 makes the storage index of the first line 0
+	st, err := filterlist.NewRuleStorage([]filterlist.RuleList{&filterlist.StringRuleList{ID: []int{0, 3, -1}[hash64(line)%3], RulesText: text}})
 	if err != nil {
 		return viol(id, "C18:harness", "storage: %v", err)
 	}
@@ -268,6 +269,16 @@ func genC18(t *rapid.T) c18Case {
 		if !c.inContract() {
 			// a comment starting with a cosmetic marker needs a blank before it
 			c.Blank = c18WS(t, "forced-blank")
+		}
+		if chance(t, "comment-across-read-buffer", 25) {
+			// a long comment in which a name (or an address and a name) starts exactly where a read buffer
+			// of the list scanner ends, counted from the start of the line
+			empty := ""
+			c.Comment = &empty
+			pre := len(c.line())
+			target := pick(t, "buffer-end", []int{4096, 4096, 4095, 4097, 8192})
+			long := " " + strings.Repeat("y", target-pre-2) + " " + pick(t, "cut-text", []string{"cut.example", "1.2.3.4 cut.example", "::1 cut.example"})
+			c.Comment = &long
 		}
 	}
 	if chance(t, "trailing", 3) {
